@@ -28,7 +28,7 @@ m = {
     "hooks": {
         "guard": "verif",
         "enable": "no hooks are committed to /repo: every check copies the current /repo working tree to a scratch directory, adds /verif/verifrt and the simulator sources to the copy, rewrites the copy with /verif/instrument (time.Now -> simulated clock, map ranges -> seeded key order, loop fuel, package-global registry) and builds with -tags verif",
-        "baseline_off_cmd": "cd /repo && GOFLAGS=-mod=mod GOPROXY=off GOSUMDB=off GOTOOLCHAIN=local go test -vet=off -count=1 ./x/...",
+        "baseline_off_cmd": "python3 /verif/baseline_check.py",
         "source_commits": [],
         "add_only": True,
     },
